@@ -23,6 +23,11 @@ PHASE = []          # stack of phase markers: 'l' local refinement, 'p' listener
 LOCAL_CALLS = []    # one entry per DoLocalRefinement call: number of objective evaluations it made (filled by the phase wrapper)
 
 
+class FpDomainExhausted(BaseException):
+    """the method's own guard fired on a partition that has reached adjacent doubles (checked, not assumed): the case has left the
+    floating-point domain of every property (DESIGN.md section 3); the worker records it as skipped"""
+
+
 class BudgetAbort(BaseException):
     """Raised by the recording objective when the hard evaluation cap is exceeded."""
 
@@ -328,7 +333,12 @@ def run_pattern(solver, pattern, after_step=None):
     with contextlib.redirect_stdout(out):
         for n, step in enumerate(pattern):
             if step[0] == "iter":
-                solver.DoGlobalIteration(step[1])
+                try:
+                    solver.DoGlobalIteration(step[1])
+                except Exception as e:
+                    if FP_GUARD in str(e) and partition_degenerate(solver):
+                        raise FpDomainExhausted(str(e))
+                    raise
             elif step[0] == "solve":
                 sols.append(solver.Solve())
             elif step[0] == "local":
@@ -391,6 +401,9 @@ def run_solver(scn, listener=True, cap="auto", fault=None, after_step=None, insi
     t.fp_exhausted = False
     try:
         t.solutions, t.stdout = run_pattern(solver, pattern, after_step=after_step)
+    except FpDomainExhausted:
+        t.fp_exhausted = True
+        t.solutions, t.stdout = [], ""
     except BudgetAbort:
         t.aborted = True
         t.solutions, t.stdout = [], ""
